@@ -62,7 +62,7 @@ def gen_matrix(rng, kind):
 
 def gen_one(rng, i, tier):
     kind = rng.choice(["int", "int", "dyadic", "float"])
-    shape = rng.choice([[], [], [1], [3], [2, 3], [0], [2, 1]])
+    shape = rng.choice([[], [], [1], [3], [2, 3], [0], [2, 1], [2, 2], [3, 3], [2, 1, 2]])
     nmat = 1
     for d in shape:
         nmat *= d
